@@ -319,12 +319,15 @@ where
             // log_gap_in = log2(N) - log_domain for extension factor 1; the output gap may be any value up to it
             let log_gap_in = 8 - log_domain;
             let log_gap_out = (w.bit_start as usize) % (log_gap_in + 1);
-            let q_ = <poulpy_hal::layouts::Module<B> as poulpy_bin_fhe::circuit_bootstrapping::CircuitBootstrappingExecute<CGGI, B>>::circuit_bootstrapping_execute_tmp_bytes(m, cbt.block_size(), 1, &res, cbt);
+            // extension factor of the internal lookup table (the shipped key is block-binary, so any power of two is legal)
+            let ext = [1usize, 1, 2, 4][(w.aux >> 8) as usize % 4];
+            let q_ = <poulpy_hal::layouts::Module<B> as poulpy_bin_fhe::circuit_bootstrapping::CircuitBootstrappingExecute<CGGI, B>>::circuit_bootstrapping_execute_tmp_bytes(m, cbt.block_size(), ext, &res, cbt);
             if exponent {
-                cbt.execute_to_exponent(m, log_gap_out, &mut res, &ct_lwe, log_domain, 1, spw("circuit_bootstrapping_execute_to_exponent", q_, &mut scratch));
+                cbt.execute_to_exponent(m, log_gap_out, &mut res, &ct_lwe, log_domain, ext, spw("circuit_bootstrapping_execute_to_exponent", q_, &mut scratch));
             } else {
-                cbt.execute_to_constant(m, &mut res, &ct_lwe, log_domain, 1, spw("circuit_bootstrapping_execute_to_constant", q_, &mut scratch));
+                cbt.execute_to_constant(m, &mut res, &ct_lwe, log_domain, ext, spw("circuit_bootstrapping_execute_to_constant", q_, &mut scratch));
             }
+            cl.push(["extension_factor=1", "extension_factor=2", "", "extension_factor=4"][ext - 1]);
             let n = m.n();
             let mut m2 = vec![0i64; n];
             if exponent {
@@ -352,7 +355,7 @@ where
                     if mx >= half_unit {
                         return fail(
                             "cell-does-not-encrypt-the-value",
-                            format!("value {data} of a domain of 2^{log_domain}{}: cell (row {row}, column {col}) is off by {mx:.3e} (2^{:.1}) at coefficient {at}, the threshold for this row is {half_unit:.3e}", if exponent { format!(", exponent mode with log_gap_out = {log_gap_out} (log_gap_in = {log_gap_in})") } else { String::new() }, mx.log2()),
+                            format!("value {data} of a domain of 2^{log_domain}{}: cell (row {row}, column {col}) is off by {mx:.3e} (2^{:.1}) at coefficient {at}, the threshold for this row is {half_unit:.3e}", if exponent { format!(", extension factor {ext}, exponent mode with log_gap_out = {log_gap_out} (log_gap_in = {log_gap_in})") } else { format!(", extension factor {ext}") }, mx.log2()),
                         );
                     }
                 }
